@@ -19,7 +19,7 @@
     (The [right]/[left] annotations of one-sided items are the subject of C08.)
     Proofs: UnionThm.v ([union_correct], [union_mut_mirrors], [union_mut_slots]), SetOpsExtra.v. *)
 From Coq Require Import List NArith Sorted.
-From PT Require Import Lookup ViewsThm UnionThm SetOpsExtra Arena Arena3 ArenaProps.
+From PT Require Import Lookup ViewsThm UnionThm SetOpsExtra Arena Arena3 ArenaProps ArenaViews ArenaSetViews.
 From PT.Properties Require Import Common.
 Import ListNotations.
 
@@ -228,6 +228,29 @@ Proof.
   etransitivity; [|exact M]. apply map_ext. intros [p l a|p a r|p l r]; reflexivity.
 Qed.
 
+(** * ... and at ANY pair of view locations (ArenaSetViews.v): [lL], [lR] are obtained by any sequence
+      of navigation calls (stored, branching and VIRTUAL roots; equal, nested, disjoint positions) on
+      two reachable arenas; [esL], [esR] are what the two views' own iterations yield; the arena
+      iterators run at the two slots, exactly as the Rust constructors do. *)
+Theorem C05_arena_views (amL : Arena.amap pfx L) (amR : Arena.amap pfx R) lL lR esL esR :
+  areach pfx L (peq w) (contains w fl) (is_bit_set w) plen (lcp w fl) pzero (okp w) amL -> areach pfx R (peq w) (contains w fl) (is_bit_set w) plen (lcp w fl) pzero (okp w) amR ->
+  a_vreach pfx L (peq w) (contains w fl) (is_bit_set w) plen (lcp w fl) (okp w) (Arena.tbl amL) lL ->
+  a_vreach pfx R (peq w) (contains w fl) (is_bit_set w) plen (lcp w fl) (okp w) (Arena.tbl amR) lR ->
+  a_v_iter pfx L (Arena.tbl amL) lL = Arena.Ok esL -> a_v_iter pfx R (Arena.tbl amR) lR = Arena.Ok esR ->
+  exists out outm,
+    Arena3.a_union pfx L R (contains w fl) (is_bit_set w) plen (mcmp w) (Arena.tbl amL) (Arena.tbl amR) (Arena3.loc_idx lL) (Arena3.loc_idx lR) = Arena.Ok out /\
+    UnionThm.union_spec pfx L R (kbits w) esL esR out /\
+    Arena3.a_union_mut pfx L R (contains w fl) (is_bit_set w) plen (mcmp w) (Arena.tbl amL) (Arena.tbl amR) (Arena3.loc_idx lL) (Arena3.loc_idx lR) = Arena.Ok outm /\
+    map (fun it => (iprefix it, ilval it, irval it)) out
+    = map (fun '(p, l, r) => (p, option_map snd l, option_map snd r)) outm.
+Proof.
+  intros HL HR VL VR EL ER.
+  destruct (arena_views_union pfx L R _ _ _ _ _ _ _ _ _ (laws w fl Hw) amL amR lL lR esL esR HL HR VL VR EL ER)
+    as (out & outm & E1 & S & E2 & M).
+  exists out, outm. split; [exact E1|]. split; [exact S|]. split; [exact E2|].
+  etransitivity; [|exact M]. apply map_ext. intros [p l a|p a r|p l r]; reflexivity.
+Qed.
+
 End C05.
 
 (** Non-vacuity (w = 8).  Map A = {00/2 ↦ 1, 01/2 ↦ 2, 1/1 ↦ 3, 110/3 ↦ 4} over [nat] (its node
@@ -289,3 +312,4 @@ Print Assumptions C05_union_mut_slots.
 Print Assumptions C05_union_views.
 Print Assumptions C05_reachable.
 Print Assumptions C05_arena.
+Print Assumptions C05_arena_views.
